@@ -286,7 +286,8 @@ def run(tier, seed, lean):
             # names that mean something to the translator or to the description language, but are ordinary identifiers
             'submodule or helper of the expressions package': {n for n in dir(ex) if not n[:1].isupper()},
             'identifier that begins with a keyword of the description language': {'letter', 'lets', 'let_x', 'classy', 'ignoredx', 'overrides', 'passx',
-                                                                                 'requiresx', 'whereabouts', 'inner', 'asx', 'extendsx', 'grammars', 'started', 'startx'},
+                                                                                 'requiresx', 'whereabouts', 'inner', 'asx', 'extendsx', 'grammars', 'started', 'startx',
+                                                                                 'Nonesuch', 'Falsey', 'Trueish', 'None_x'},
         }
         for pool_name, pool in pools.items():
             cands = sorted(n for n in pool if n.isidentifier() and not keyword.iskeyword(n) and not n.startswith('_') and n not in API and n not in own_python)
@@ -312,7 +313,7 @@ def run(tier, seed, lean):
                     if pool_name == 'builtin read by the runtime' or hasattr(builtins, name):
                         klass = f'runtime-builtin:{slot[0]}:{name}'
                     elif pool_name.startswith('identifier that begins with a keyword'):
-                        kw = max((k for k in DESC_KEYWORDS | {'start'} if name.startswith(k)), key=len, default='none')
+                        kw = max((k for k in DESC_KEYWORDS | {'start', 'None', 'False', 'True'} if name.startswith(k)), key=len, default='none')
                         klass = f'keyword-prefix:{kw}:{slot[0]}'
                     elif pool_name == 'expression constructor' and slot[0] in 'RCT':
                         klass = f'constructor-name:{name}'
